@@ -56,12 +56,24 @@ var execSeq int
 // execute runs goalign with the arguments in a fresh working directory below caseDir and
 // collects what it produced. Input files live in caseDir and are given by absolute path.
 func execute(caseDir, stdin string, args []string) snap {
+	return executeStale(caseDir, stdin, args, nil)
+}
+
+// executeStale: same, but the working directory already holds the named files (file name -> number
+// of lines), with a longer stale content of "an earlier run": a command must replace the files it
+// writes, what is read back must be what is read back when they did not exist
+func executeStale(caseDir, stdin string, args []string, stale map[string]int) snap {
 	execSeq++
 	wd := filepath.Join(caseDir, fmt.Sprintf("x%d", execSeq))
 	if err := os.MkdirAll(wd, 0o755); err != nil {
 		panic(err)
 	}
 	defer os.RemoveAll(wd)
+	for name, lines := range stale {
+		p := filepath.Join(wd, name)
+		os.MkdirAll(filepath.Dir(p), 0o755)
+		cli.StaleFile(p, lines)
+	}
 	r := cli.RunIn(wd, stdin, args...)
 	s := snap{Exit: r.Exit, TimedOut: r.TimedOut, Stdout: r.Stdout, Stderr: r.Stderr, Files: map[string]string{}}
 	filepath.Walk(wd, func(p string, info os.FileInfo, err error) error {
@@ -828,11 +840,19 @@ var templates = []tmpl{
 		return cat("sample", "sites", "-i", x.in, "-l", 1+x.k(0, x.l()), x.opt(1, "--consecutive=false"), x.opt(2, "-n", 3, "-o", "sites"))
 	}},
 	{Name: "sample rarefy", In: "any", Random: true, Map: true, Args: func(x *ctx) []string {
+		// counts with ties on purpose (three values at most, all equal for one knob value in four),
+		// and a sample smaller than the sum of the counts (a larger one is an error)
 		var m strings.Builder
+		total := 0
 		for i, r := range x.c.Rows {
-			fmt.Fprintf(&m, "%s\t%d\n", r.Name, 1+(i*7+x.k(0, 5))%6)
+			cnt := 1 + (i+x.k(0, 3))%3
+			if x.k(3, 4) == 0 {
+				cnt = 2
+			}
+			total += cnt
+			fmt.Fprintf(&m, "%s\t%d\n", r.Name, cnt)
 		}
-		return cat("sample", "rarefy", "-i", x.in, "-c", x.file("counts.txt", m.String()), "-n", 1+x.k(1, 2*x.n()), x.opt(2, "-r", 2, "-o", "rare.fa"))
+		return cat("sample", "rarefy", "-i", x.in, "-c", x.file("counts.txt", m.String()), "-n", 1+x.k(1, total-1), x.opt(2, "-r", 2, "-o", "rare.fa"))
 	}},
 	{Name: "mutate snvs", In: "any", Random: true, Args: func(x *ctx) []string {
 		return cat("mutate", "snvs", "-i", x.in, "-r", frac(1+x.k(0, 5)))
@@ -922,6 +942,13 @@ type sweepCase struct {
 	// second one, so that the two executions do not fall in the same second of the clock (the
 	// resolution of the time stamps those formats can carry)
 	Gap bool `json:"gap,omitempty"`
+	// Layout: from the second execution on, the main FASTA input is presented in this layout
+	// (wrapped lines, blank-separated blocks, CRLF, empty lines, no final newline): same alignment,
+	// the output must not depend on it
+	Layout cli.Layout `json:"layout"`
+	// Stale: from the second execution on, every file the first execution created exists already,
+	// with a longer stale content
+	Stale bool `json:"stale,omitempty"`
 }
 
 func genInput(t *rapid.T, kind string) (string, []gen.Row) {
@@ -974,12 +1001,10 @@ func genSeed(t *rapid.T) int64 {
 
 func seedClass(v int64) string {
 	switch {
-	case v == 0:
-		return "seed=0"
 	case v < 0:
 		return "seed<0"
 	}
-	return "seed>0"
+	return "seed>=0"
 }
 
 func genThreads(t *rapid.T) []int {
@@ -1005,6 +1030,10 @@ func genSweepFor(t *rapid.T, tp *tmpl) sweepCase {
 	c.Threads = genThreads(t)
 	c.Repeat = 3
 	c.Gap = tp.Compressed && rapid.IntRange(0, 9).Draw(t, "gap") == 0
+	if tp.In != "orf" && rapid.IntRange(0, 2).Draw(t, "relayout") == 0 {
+		c.Layout = cli.DrawLayout(t)
+	}
+	c.Stale = rapid.IntRange(0, 2).Draw(t, "stale") == 0
 	return c
 }
 
@@ -1049,7 +1078,21 @@ func checkSweep(c sweepCase) (o pbt.Outcome, err error) {
 		}
 		for r := 0; r < rep; r++ {
 			args := append(append([]string{}, clean...), "-t", fmt.Sprint(th))
-			s := execute(dir, "", args)
+			var stale map[string]int
+			if len(runs) > 0 {
+				if !c.Layout.Plain() {
+					x.file("in.fa", cli.FastaLayout(c.Rows, c.Layout))
+				}
+				if c.Stale {
+					stale = map[string]int{}
+					for name, content := range runs[0].s.Files {
+						if !strings.HasSuffix(name, "]") {
+							stale[name] = len(content)/64 + 5
+						}
+					}
+				}
+			}
+			s := executeStale(dir, "", args, stale)
 			if s.TimedOut {
 				// a time limit is not a correctness signal: the case is not judged
 				o.Skip = true
@@ -1079,7 +1122,7 @@ func checkSweep(c sweepCase) (o pbt.Outcome, err error) {
 		}
 	}
 	o.NonTrivial = !ref.s.empty() && (tp.Random || (tp.Threads && multi) || tp.Map)
-	// (the driver keeps 80 classes per test: one per template plus the five below)
+	// (the driver keeps 80 classes per test: one per command plus at most seven below)
 	if tp.Class != "" {
 		o.Class("cmd=%s", tp.Class)
 	} else {
@@ -1096,10 +1139,14 @@ func checkSweep(c sweepCase) (o pbt.Outcome, err error) {
 		}
 		o.Class("exit!=0")
 	}
+	if c.Stale && len(ref.s.Files) > 0 {
+		o.Class("output files existed (stale, longer) from the second execution on")
+	}
+	if !c.Layout.Plain() {
+		o.Class("FASTA input in another layout from the second execution on")
+	}
 	if waited {
 		o.Class("compressed output, executions 1.1 s apart")
-	} else if len(ref.s.Files) > 0 {
-		o.Class("output files")
 	}
 	return o, nil
 }
